@@ -103,3 +103,106 @@ class CheckpointThreaded(sharness.Threaded):
 
 
 HARNESSES = {'checkpoint_threaded': CheckpointThreaded}
+
+
+# ---------------------------------------------------------------------------
+# C12 with worker threads: error skipping / first error surfaces
+# ---------------------------------------------------------------------------
+
+class Bad(ValueError):
+  """The injected (skippable) operator failure."""
+
+
+class SkipThreaded(sharness.Threaded):
+  """params: n records, threads, source kind, fail (list of record indices whose
+  operator call raises), ignore (error skipping on/off)."""
+  name = 'skip_threaded'
+
+  def __init__(self, n=4, source='seq', threads=1, fail=(1,), ignore=True,
+               mode='preempt'):
+    super().__init__(ops=(), agg=None, n=n, source=source, threads=threads,
+                     mode=mode)
+    self.params.update(fail=list(fail), ignore=ignore)
+
+  def setup(self):
+    p = self.params
+    self.batches, self.end = [], None
+    firsts = [r['v'][0] for r in self.records]
+    bad = {firsts[i] for i in p['fail'] if i < len(firsts)}
+
+    def op(v):
+      if v[0] in bad:
+        raise Bad(f'record starting with {v[0]}')
+      return [x + 1000 for x in v]
+
+    def body():
+      from ml_metrics._src.chainables import transform
+      t = transform.TreeTransform.new(
+          name='s', num_threads=p['threads']).data_source(
+              sharness.make_source(p['source'], self.records)).apply(
+                  fn=op, input_keys='v', output_keys='w')
+      try:
+        it = t.make().iterate(ignore_error=p['ignore'])
+        for b in it:
+          self.batches.append(b)
+        self.end = ('ok',)
+      except sched.Abort:
+        raise
+      except BaseException as e:  # pylint: disable=broad-except
+        self.end = ('exc', e)
+      for pool in list(vfutures.ThreadPoolExecutor._pools):
+        for w in list(pool._workers):
+          w.join()
+    return body
+
+  def snapshot(self):
+    return len(self.batches)
+
+  def outcome(self, res):
+    return (res.failure and res.failure[0],
+            tuple(sorted(repr(b) for b in self.batches)), self.end and self.end[0])
+
+  def check(self, res):
+    p = self.params
+    cfg = f'{p["source"]}:T{p["threads"]}:{"skip" if p["ignore"] else "raise"}'
+    if res.failure:
+      kind, info = res.failure
+      return [(f'C12:threads:{kind}{_stuck(kind, info)}:{cfg}',
+               {'failure': kind, 'info': _info(info)})]
+    out = []
+    good = [r for i, r in enumerate(self.records) if i not in p['fail']]
+    want = sorted(repr({'w': [x + 1000 for x in r['v']]}) for r in good)
+    got = sorted(repr(dict(b)) if hasattr(b, 'items') else repr(b)
+                 for b in self.batches)
+    if p['ignore']:
+      if self.end != ('ok',):
+        out.append((f'C12:threads:raised-although-skipping:{cfg}',
+                    {'end': repr(self.end)}))
+      elif got != want:
+        missing = [x for x in want if x not in got]
+        sym = 'healthy-elements-lost' if missing else 'extra-or-duplicated-elements'
+        out.append((f'C12:threads:{sym}:{cfg}', {'got': got, 'want': want}))
+    else:
+      if not p['fail']:
+        if self.end != ('ok',) or got != want:
+          out.append((f'C12:threads:fault-free-run-differs:{cfg}',
+                      {'end': repr(self.end), 'got': got}))
+      else:
+        e = self.end[1] if self.end and self.end[0] == 'exc' else None
+        chain, seen = [], 0
+        while e is not None and seen < 12:
+          chain.append(e)
+          e = e.__cause__ or e.__context__
+          seen += 1
+        if not any(isinstance(x, Bad) for x in chain):
+          out.append((f'C12:threads:first-error-not-surfaced:{cfg}',
+                      {'end': repr(self.end), 'got': got}))
+        if any(x not in want for x in got):
+          out.append((f'C12:threads:invented-elements:{cfg}', {'got': got}))
+    for pool in vfutures.ThreadPoolExecutor._pools:
+      if pool.alive_workers():
+        out.append((f'C12:threads:pool-threads-alive:{cfg}', {}))
+    return out
+
+
+HARNESSES['skip_threaded'] = SkipThreaded
